@@ -19,7 +19,7 @@ import (
 )
 
 func init() {
-	fw.Register(&fw.Check{ID: "C15", Level: "model_checking", Run: runC15, QuickBudget: 100, ThoroughBudget: 1200})
+	fw.Register(&fw.Check{ID: "C15", Level: "model_checking", Run: runC15, QuickBudget: 600, ThoroughBudget: 1800})
 }
 
 // c15Init builds the initial .git worlds with real git.
@@ -28,12 +28,21 @@ type c15Init struct {
 	world  *mcfs.World
 	model  map[string]string
 	h1, h2 string
+	tag    string // id of the annotated tag object (peels to h1)
+	big    bool   // packed-refs larger than every buffer the ref code uses (see c15BigRefs)
 }
+
+// c15BigRefs filler references (53-byte lines in a sha1 repository) make packed-refs about 85 KiB: larger than
+// bufio's 4 KiB default buffer, than 32 KiB copy buffers and than bufio.MaxScanTokenSize (64 KiB), so that the
+// interesting names sit in different read chunks (refs/heads/* in the first, refs/tags/* in the last).
+const c15BigRefs = 1600
+
+func c15Filler(i int) string { return fmt.Sprintf("refs/m/%04d", i) }
 
 func c15Worlds(c *fw.Ctx) []c15Init {
 	var out []c15Init
-	mk := func(name string, setup func(g *fw.Git, h1, h2, tag string)) {
-		g, dir := c.InitRepo("c15-"+name, "", false)
+	mkf := func(name, format string, setup func(g *fw.Git, h1, h2, tag string)) {
+		g, dir := c.InitRepo("c15-"+name, format, false)
 		ids := g.BuildHistory([]fw.CommitSpec{
 			{Time: 1700000000, Files: map[string]fw.FileSpec{"f": {Data: "1\n"}}},
 			{Parents: []int{0}, Time: 1700000100, Files: map[string]fw.FileSpec{"f": {Data: "2\n"}}},
@@ -60,8 +69,9 @@ func c15Worlds(c *fw.Ctx) []c15Init {
 		} else {
 			m["HEAD"] = g.MustRun("rev-parse", "HEAD").S()
 		}
-		out = append(out, c15Init{name, w, m, h1, h2})
+		out = append(out, c15Init{name: name, world: w, model: m, h1: h1, h2: h2, tag: tag})
 	}
+	mk := func(name string, setup func(g *fw.Git, h1, h2, tag string)) { mkf(name, "", setup) }
 	mk("empty", func(g *fw.Git, h1, h2, tag string) {})
 	mk("git-loose+packed", func(g *fw.Git, h1, h2, tag string) {
 		g.MustRun("update-ref", "refs/heads/a", h1)
@@ -75,6 +85,7 @@ func c15Worlds(c *fw.Ctx) []c15Init {
 		g.MustRun("update-ref", "refs/heads/a", h1)
 		g.MustRun("update-ref", "refs/heads/a2/b", h2)
 		g.MustRun("update-ref", "refs/tags/t", tag)
+		g.MustRun("update-ref", "refs/tags/u", h2) // a packed line AFTER the tag's "^peeled" line
 		g.MustRun("pack-refs", "--all")
 	})
 	mk("loose-symref", func(g *fw.Git, h1, h2, tag string) {
@@ -82,6 +93,34 @@ func c15Worlds(c *fw.Ctx) []c15Init {
 		g.MustRun("symbolic-ref", "refs/remotes/o/HEAD", "refs/heads/a")
 		g.MustRun("checkout", "-q", "--detach", h1)
 	})
+	// the same shape in a SHA-256 repository: every value is a 64-digit id
+	mkf("sha256-loose+packed", "sha256", func(g *fw.Git, h1, h2, tag string) {
+		g.MustRun("update-ref", "refs/heads/a", h1)
+		g.MustRun("update-ref", "refs/tags/t", tag)
+		g.MustRun("update-ref", "refs/tags/u", h2)
+		g.MustRun("pack-refs", "--all")
+		g.MustRun("update-ref", "refs/heads/a", h2)
+		g.MustRun("update-ref", "refs/heads/c", h1)
+		g.MustRun("symbolic-ref", "refs/remotes/o/HEAD", "refs/heads/a")
+	})
+	// a packed-refs file that does not fit any buffer: names of the universe at both ends of it
+	mk("big-packed", func(g *fw.Git, h1, h2, tag string) {
+		var sb strings.Builder
+		for i := 0; i < c15BigRefs; i++ {
+			v := h1
+			if i%2 == 1 {
+				v = h2
+			}
+			fmt.Fprintf(&sb, "create %s %s\n", c15Filler(i), v)
+		}
+		g.MustRunIn([]byte(sb.String()), "update-ref", "--stdin")
+		g.MustRun("update-ref", "refs/heads/a", h1)
+		g.MustRun("update-ref", "refs/tags/t", tag)
+		g.MustRun("update-ref", "refs/tags/u", h2)
+		g.MustRun("pack-refs", "--all")
+		g.MustRun("update-ref", "refs/heads/c", h1)
+	})
+	out[len(out)-1].big = true
 	return out
 }
 
@@ -226,7 +265,8 @@ func modelString(m map[string]string) string {
 	return strings.Join(ls, "\n")
 }
 
-var c15Names = []string{"HEAD", "refs/heads/a", "refs/heads/a/b", "refs/tags/t", "refs/remotes/o/HEAD", "refs/heads/c", "refs/heads/a2/b", "refs/heads/missing"}
+var c15Names = []string{"HEAD", "refs/heads/a", "refs/heads/a/b", "refs/heads/a/b/c", "refs/tags/t", "refs/tags/u", "refs/remotes/o/HEAD", "refs/heads/c", "refs/heads/a2/b", "refs/heads/missing",
+	c15Filler(0), c15Filler(c15BigRefs/2 + 17), c15Filler(c15BigRefs - 1), c15Filler(c15BigRefs)}
 
 func (s *c15Sys) Observe() (string, string) {
 	var exp, got []string
@@ -309,6 +349,11 @@ func runC15(c *fw.Ctx) {
 		ops = append(ops, c15Op{name: fmt.Sprintf("CAS(%s,new=h2,old=h1)", r), kind: "cas", ref: r, val: "h2", old: "h1"})
 	}
 	ops = append(ops, c15Op{name: "CAS(refs/heads/a,new=h1,old=h2)", kind: "cas", ref: "refs/heads/a", val: "h1", old: "h2"})
+	// a name nested two levels below an existing name: removing it (or packing it) leaves TWO directories to prune
+	ops = append(ops, c15Op{name: "Set(refs/heads/a/b/c,h1)", kind: "set", ref: "refs/heads/a/b/c", val: "h1"})
+	ops = append(ops, c15Op{name: "Remove(refs/heads/a/b/c)", kind: "remove", ref: "refs/heads/a/b/c"})
+	// conditional set whose old and new values are symbolic (both have the zero hash)
+	ops = append(ops, c15Op{name: "CAS(HEAD,new=sym->refs/heads/a,old=sym->refs/heads/missing)", kind: "cas", ref: "HEAD", val: "ref: refs/heads/a", old: "ref: refs/heads/missing"})
 	names := make([]string, len(ops))
 	for i, o := range ops {
 		names[i] = o.name
@@ -318,9 +363,9 @@ func runC15(c *fw.Ctx) {
 	inits := c15Worlds(c)
 	// final persistent states to hand to git: hash -> (world clone, model)
 	type final struct {
-		w *mcfs.World
-		m map[string]string
-		h []string
+		w  *mcfs.World
+		m  map[string]string
+		in *c15Init
 	}
 	var fmu sync.Mutex
 	finals := map[string]*final{}
@@ -332,10 +377,18 @@ func runC15(c *fw.Ctx) {
 			if step == 0 {
 				clock = "frozen"
 			}
+			d := depth
+			if in.big {
+				// a history on the big file costs many times a small one: one level less, ticking clock only
+				if step == 0 {
+					continue
+				}
+				d = depth - 1
+			}
 			sp := histx.Spec{
 				Name:    "C15/" + in.name + "/" + clock,
 				OpNames: names,
-				Depth:   depth,
+				Depth:   d,
 				New: func() histx.Sys {
 					w := in.world.Clone()
 					w.ClockStep = step
@@ -353,7 +406,7 @@ func runC15(c *fw.Ctx) {
 							for a, b := range s.model {
 								mm[a] = b
 							}
-							finals[k] = &final{w: s.w.Clone(), m: mm}
+							finals[k] = &final{w: s.w.Clone(), m: mm, in: in}
 						}
 						fmu.Unlock()
 					}}
@@ -440,6 +493,37 @@ func runC15(c *fw.Ctx) {
 		if !r.OK() {
 			bad = append(bad, "git for-each-ref failed: "+strings.TrimSpace(string(r.Err)))
 		}
+		// peeling: git show-ref -d answers from the "^" lines of packed-refs when its header promises them, so a
+		// rewrite that loses or misplaces one makes git see a different (unpeelable / wrongly peeled) tag.
+		hasTag := false
+		for k, v := range f.m {
+			if k != "HEAD" && v == f.in.tag {
+				hasTag = true
+			}
+		}
+		if hasTag && r.OK() {
+			sr := gg.Run("show-ref", "-d")
+			c.TracesValidated(1)
+			peeled := map[string]string{}
+			for _, l := range strings.Split(sr.S(), "\n") {
+				fl := strings.Fields(l)
+				if len(fl) == 2 && strings.HasSuffix(fl[1], "^{}") {
+					peeled[strings.TrimSuffix(fl[1], "^{}")] = fl[0]
+				}
+			}
+			for k, v := range f.m {
+				if k == "HEAD" || strings.HasPrefix(v, "ref: ") {
+					continue
+				}
+				want := ""
+				if v == f.in.tag {
+					want = f.in.h1
+				}
+				if peeled[k] != want {
+					bad = append(bad, fmt.Sprintf("%s: git show-ref -d peels it to %q, expected %q", k, peeled[k], want))
+				}
+			}
+		}
 		if len(bad) > 0 {
 			sort.Strings(bad)
 			c.Fail("git-reads-differently: "+c15Norm(bad[0], f), "real git reads a state go-git produced differently from the map: "+strings.Join(bad, "; "),
@@ -490,6 +574,9 @@ func c15Classify(last, where, e, g string) string {
 	if i := strings.IndexByte(last, '('); i > 0 {
 		opk = last[:i]
 	}
+	if strings.Contains(last, "old=sym->") {
+		opk += "[old value symbolic]" // its own class: symbolic values all share the zero hash
+	}
 	if strings.HasPrefix(where, "result of") {
 		return fmt.Sprintf("%s returns %s, expected %s", opk, g, e)
 	}
@@ -510,7 +597,7 @@ func c15Classify(last, where, e, g string) string {
 	norm := func(l string) string {
 		f := strings.Fields(l)
 		for i, x := range f {
-			if len(x) == 40 && isHex(x) {
+			if (len(x) == 40 || len(x) == 64) && isHex(x) {
 				f[i] = "<hash>"
 			}
 			if strings.HasPrefix(x, "refs/") || x == "HEAD" {
